@@ -3,11 +3,14 @@ package mon
 import (
 	"encoding/json"
 	"fmt"
+	"math/rand"
+	"reflect"
 	"regexp"
 	"sort"
 	"strconv"
 	"strings"
 
+	"github.com/openconfig/goyang/pkg/yang"
 	"github.com/openconfig/ygot/ygot"
 	"github.com/openconfig/ygot/zzverif/lib"
 )
@@ -269,7 +272,46 @@ func runC05(r *lib.Run) {
 			c05Pair(r, cfg, i, mk)
 		}
 	}
-	r.RequireCov("outcome:ok", "outcome:conflict", "overwrite:ok", "swap:ok", "pair:subset", "pair:independent", "pair:leaflist-overlap", "conflict:leaf-list-overlap")
+	// set-but-empty binary leaves: b is a's twin, and one non-empty binary leaf of one of the
+	// two is replaced by the empty (non-nil) byte string, so the same leaf holds "" on one side
+	// and a non-empty value on the other - a conflict like any other pair of different values
+	for _, cfg := range cfgsFor(r, quick3) {
+		for i := 0; i < n/4; i++ {
+			if skip(cfg, i) {
+				continue
+			}
+			blank := func(t ygot.GoStruct) bool {
+				rng := rand.New(rand.NewSource(r.Seed*7919 + int64(i)))
+				s, ok := pick(rng, sites(cfg, t, func(nd *lib.Node, f *lib.FieldInfo, v reflect.Value) bool {
+					return f.Kind == lib.KLeaf && f.YType != nil && f.YType.Kind == yang.Ybinary && v.Kind() == reflect.Slice &&
+						v.Type().Elem().Kind() == reflect.Uint8 && v.Len() > 0 && !isKeyField(nd, f) && len(f.YType.Length) == 0
+				}))
+				if !ok {
+					return false
+				}
+				s.v.Set(reflect.MakeSlice(s.v.Type(), 0, 0))
+				return true
+			}
+			probe := lib.NewGen(cfg, r.Seed, i, c05Opts(i)).Tree()
+			if !blank(probe) {
+				r.Hit("empty-binary:no-site")
+				continue
+			}
+			side := i % 2
+			mk := func() (ygot.GoStruct, ygot.GoStruct, string) {
+				a := lib.NewGen(cfg, r.Seed, i, c05Opts(i)).Tree()
+				b := lib.NewGen(cfg, r.Seed, i, c05Opts(i)).Tree()
+				if side == 0 {
+					blank(a)
+					return a, b, "empty-binary-in-first"
+				}
+				blank(b)
+				return a, b, "empty-binary-in-second"
+			}
+			c05Pair(r, cfg, i, mk)
+		}
+	}
+	r.RequireCov("outcome:ok", "outcome:conflict", "overwrite:ok", "swap:ok", "pair:subset", "pair:independent", "pair:leaflist-overlap", "conflict:leaf-list-overlap", "pair:empty-binary-in-first", "pair:empty-binary-in-second")
 }
 
 func c05Pair(r *lib.Run, cfg *lib.Cfg, idx int, mk func() (ygot.GoStruct, ygot.GoStruct, string)) {
